@@ -4,12 +4,14 @@
   `targetUtility` / `assignUtility` / `maximiseUtilityDuty` model `_target_utility`,
   `_assign_utility`, `_maximise_utility_duty` (tied to the code on 1500+ synthetic profiles × utility
   ladders per run by harness/opv/props/c03model.py).  Proved for all profiles and ladders: duties
-  are non-negative, never exceed the profile, unreachable utilities get nothing, and a utility
-  lying wholly beyond the segment (what the default utilities are) closes the allocation.
+  are non-negative, never exceed the profile, unreachable utilities get nothing, and — on the
+  heating side — a ladder that ends with a utility lying wholly beyond the segment (what the default
+  hot utility is) closes the allocation within `tol` (`covering_ladder_closes_hot`; the cooling
+  side is the mirror image and is not proved separately: it is decided by the oracle).
   The unconditional statement "the duties always sum to Qh / Qc" is false of the code (known
   finding C03-cold-sufficiency-sign) and is not claimed as a theorem.
 -/
-import OPModel.Proofs.UtilityLemmas
+import OPModel.Proofs.UtilityClosure
 import OPModel.Gen.Constants
 
 namespace OP.C03
@@ -64,6 +66,24 @@ theorem unreachable_gets_zero (tol : Rat) (T H : List Rat) (u : ULevel) (isHot :
         intro hh
         linarith [hh.2.1]
     rw [this]
+
+/-- **A ladder that ends with a covering hot utility allocates exactly the target** (within `tol`):
+    for every heating segment with a non-increasing load profile from `limit = Qh` at the top to
+    less at the pinch, every ladder `pre` of utilities of any kind, and a last utility whose supply
+    and target levels are at least as hot as every row — the duties add up to `limit`, up to the
+    `tol` the loop itself stops at. -/
+theorem covering_ladder_closes_hot (tol : Rat) (htol : 0 ≤ tol) (T H : List Rat) (pre : List ULevel) (uc : ULevel) (limit : Rat)
+    (hcov : ∀ t ∈ T, t ≤ uc.tt ∧ -tol ≤ uc.ts - t)
+    (hlen : T.length = H.length) (hmono : H.Pairwise (· ≥ ·)) (hhead : H.head? = some limit)
+    (hlast : ∃ z, H.getLast? = some z ∧ z < limit) (h0 : 0 ≤ limit) :
+    limit - tol ≤ (assignLoop tol T H true limit 0 (pre ++ [uc])).sum ∧
+    (assignLoop tol T H true limit 0 (pre ++ [uc])).sum ≤ limit := by
+  have := assignLoop_closes_hot tol htol T H uc limit hcov hlen hmono hhead hlast pre 0 h0
+  simpa using this
+
+/-- the hypotheses are met by the example ladder below (the 260-level covers the segment) -/
+example : (assignLoop Gen.tol [200, 150, 100] [900, 400, 0] true 900 0 ([⟨160, 1599/10⟩] ++ [⟨260, 2599/10⟩])).sum = 900 := by
+  decide +kernel
 
 /-- The code's tolerance is non-negative. -/
 theorem tol_nonneg : 0 ≤ Gen.tol := by decide +kernel
